@@ -11,7 +11,7 @@
    keys never decrease along the list, which every store reachable by the API satisfies
    (c18_store_ops), so it does not restrict the stores the theorems speak about. *)
 From OlaBase Require Import Bytes.
-From C18 Require Import Model ProofsStr ProofsLoad ProofsCrash ProofsRestore.
+From C18 Require Import Model ProofsStr ProofsLoad SyncModel SyncProofs ProofsCrash ProofsRestore ProofsFail ProofsPort.
 Local Open Scope N_scope.
 
 (* Save then load gives back exactly the same store: every entry, values containing '=' or '#',
@@ -181,3 +181,137 @@ Theorem c18_decimal_roundtrip : forall n maxv,
   n < 10 ^ 20 -> string_to_uint maxv (dec n) = if n <=? maxv then PVal n else PReject.
 Proof. intros n maxv H. exact (string_to_uint_dec maxv n H). Qed.
 Print Assumptions c18_decimal_roundtrip.
+
+(* ======================================================================== round 2 *)
+
+(* "Once the saver thread has been synchronised the file reflects the most recent save."
+   The machine of SyncModel.v: thread M calls SavePreferences / Synchronize (program p), thread S is
+   the saver (SelectServer loop: swap the incoming callback list, run it in order); Synchronize and
+   CompleteSynchronization as in the code with fix 04 (flag + predicate loop, signal under the
+   mutex).  For EVERY program, initial directory and schedule - any interleaving of atomic steps of
+   the two threads and any number of spurious wake-ups of pthread_cond_wait anywhere - :
+   the saver never touches the mutex / condition variable / flag of a Synchronize that has returned
+   (hazard), and at every return of Synchronize (one synclog entry each: saves issued so far, saves
+   completed so far, directory) the completed saves are exactly the issued ones and the settings
+   file holds byte for byte the most recent one - so it loads as that store (c18_roundtrip).
+   Safety only: that Synchronize eventually returns under a fair schedule is not proved
+   (Example c18_sync_not_vacuous shows a completing schedule). *)
+Theorem c18_sync : forall (p : list mop) (d : fs) (sched : list choice),
+  let s := run true sched (init p d) in
+  hazard s = false /\
+  Forall (fun e => let '(iss, comp, dk) := e in
+                   comp = iss /\
+                   forall m, last_opt iss = Some m ->
+                     f_conf dk = Some (save_bytes m) /\ (sorted m -> map_ok m -> restart dk = m))
+         (synclog s).
+Proof. exact sync_safe_loads. Qed.
+Print Assumptions c18_sync.
+
+Example c18_sync_not_vacuous :
+  let m := [([107], [118])] in
+  let d0 := {| f_conf := None; f_tmp := None |} in
+  let s := run true (old_sync_schedule ++ [CSaver; CSaver; CSaver; CSaver; CSaver; CSaver; CSaver; CMain; CMain; CMain; CMain])
+               (init [MSave m; MSync] d0) in
+  exists dk, synclog s = [([m], [m], dk)] /\ f_conf dk = Some (save_bytes m) /\ mpc s = MIdle /\ prog s = [].
+Proof. exact fixed_sync_completes. Qed.
+
+(* Before fix 04: one spurious wake-up and Synchronize returns with the save issued before it not
+   even started ([m] issued, [] completed, directory untouched); three saver steps later the saver
+   locks the destroyed mutex. *)
+Theorem c18_sync_refuted_before_fix :
+  let m := [([107], [118])] in
+  let d0 := {| f_conf := None; f_tmp := None |} in
+  let s := run false old_sync_schedule (init [MSave m; MSync] d0) in
+  synclog s = [([m], [], d0)] /\ hazard s = false /\
+  hazard (run false [CSaver; CSaver; CSaver] s) = true.
+Proof. exact old_sync_returns_early. Qed.
+Print Assumptions c18_sync_refuted_before_fix.
+
+(* The keys DeviceManager stores a port's settings under - Port::UniqueId() =
+   "<plugin id>-<device id>-<I|O>-<port id>" and that with "_priority_value" / "_priority_mode"
+   appended - meet the side conditions on keys for every plugin id, port id and direction and every
+   device id that is a single line without '='. *)
+Theorem c18_port_keys_admissible : forall plugin device input port_id,
+  ~ In NL device -> ~ In EQC device ->
+  key_ok (port_key plugin device input port_id) /\
+  key_ok (port_key plugin device input port_id ++ s_pval) /\
+  key_ok (port_key plugin device input port_id ++ s_pmode).
+Proof.
+  intros plugin device input port_id H1 H2.
+  pose proof (key_ok_port plugin device input port_id [] H1 H2 (or_introl eq_refl)) as K.
+  rewrite app_nil_r in K. split; [exact K|]. split; apply key_ok_port; auto.
+Qed.
+Print Assumptions c18_port_keys_admissible.
+
+(* Port settings through the file (c18_port_store composed with c18_roundtrip): device released,
+   store saved, new process, file loaded, device registered again with new port objects - patch
+   (every unsigned int universe id), priority (0..200) and mode come back, for every such port key
+   and every admissible store the settings were added to. *)
+Theorem c18_port : forall plugin device input port_id p m static0,
+  ~ In NL device -> ~ In EQC device ->
+  sorted m -> map_ok m ->
+  match p_uni p with Some u => u <= 4294967295 | None => True end ->
+  p_prio p <= 200 ->
+  let id := port_key plugin device input port_id in
+  (p_cap p = CapStatic -> string_to_uint 255 (get_value (id ++ s_pmode) m) <> PUnmodelled) ->
+  exists q, restore_port id (load_bytes (save_bytes (save_port id p m))) (fresh_like p static0) = RPort q /\
+            p_cap q = p_cap p /\ p_uni q = p_uni p /\
+            match p_cap p with
+            | CapNone => True
+            | CapStatic => p_prio q = p_prio p
+            | CapFull => p_prio q = p_prio p /\ p_static q = p_static p
+            end.
+Proof. exact port_restored_through_file. Qed.
+Print Assumptions c18_port.
+
+(* A save during which the stream fails (disk full, I/O error): fix 02 then closes, removes the
+   temporary and does not rename.  For every file system meeting the premises, every previous
+   directory, every body of successful (possibly short) and failing writes to the temporary in any
+   order, and every number k of calls completed before a crash: no impossible call, the settings
+   file is untouched, a new process loads the previous settings; and when all calls have been made
+   the temporary is gone. *)
+Theorem c18_write_failure_keeps_old : forall step : fs -> sys -> option fs,
+  (forall s, exists s', step s (SOpenTrunc Tmp) = Some s' /\ f_conf s' = f_conf s /\ f_tmp s' = Some []) ->
+  (forall s c bs, f_tmp s = Some c ->
+     exists s', step s (SWrite Tmp bs) = Some s' /\ f_conf s' = f_conf s /\ f_tmp s' = Some (c ++ bs)) ->
+  (forall s c, f_tmp s = Some c ->
+     exists s', step s (SWriteFail Tmp) = Some s' /\ f_conf s' = f_conf s /\ f_tmp s' = Some c) ->
+  (forall s c, f_tmp s = Some c ->
+     exists s', step s (SClose Tmp) = Some s' /\ f_conf s' = f_conf s /\ f_tmp s' = Some c) ->
+  (forall s c, f_tmp s = Some c ->
+     exists s', step s (SUnlink Tmp) = Some s' /\ f_conf s' = f_conf s /\ f_tmp s' = None) ->
+  forall (body : list sys) (k : nat) (s : fs),
+  Forall (fun x => tmp_write x = true) body ->
+  exists s', fs_run step (firstn k (script_failed body)) s = Some s' /\
+    f_conf s' = f_conf s /\ restart s' = restart s /\
+    ((length body + 3 <= k)%nat -> f_tmp s' = None).
+Proof. exact failed_save_keeps_old. Qed.
+Print Assumptions c18_write_failure_keeps_old.
+
+Example c18_write_failure_hypotheses_satisfiable :
+  (forall s c, f_tmp s = Some c ->
+     exists s', fs_step s (SWriteFail Tmp) = Some s' /\ f_conf s' = f_conf s /\ f_tmp s' = Some c) /\
+  (forall s c, f_tmp s = Some c ->
+     exists s', fs_step s (SUnlink Tmp) = Some s' /\ f_conf s' = f_conf s /\ f_tmp s' = None) /\
+  (forall m k, (exists body, save_script_enospc m k = script_failed body /\
+                             Forall (fun x => tmp_write x = true) body) \/
+               save_script_enospc m k = save_script m).
+Proof. split; [exact fs_write_fail_tmp|]. split; [exact fs_unlink_tmp|exact save_script_enospc_shape]. Qed.
+
+(* The first save ever (no settings file yet), cut short after any number of calls: a new process
+   finds no file and starts with the empty store, or (only once all calls are done) finds the
+   complete new file and loads the new settings.  Instance of c18_crash_atomic spelled out. *)
+Theorem c18_first_save_crash : forall step : fs -> sys -> option fs,
+  (forall s, exists s', step s (SOpenTrunc Tmp) = Some s' /\ f_conf s' = f_conf s /\ f_tmp s' = Some []) ->
+  (forall s c bs, f_tmp s = Some c ->
+     exists s', step s (SWrite Tmp bs) = Some s' /\ f_conf s' = f_conf s /\ f_tmp s' = Some (c ++ bs)) ->
+  (forall s c, f_tmp s = Some c ->
+     exists s', step s (SClose Tmp) = Some s' /\ f_conf s' = f_conf s /\ f_tmp s' = Some c) ->
+  (forall s c, f_tmp s = Some c -> exists s', step s (SRename Tmp Conf) = Some s' /\ f_conf s' = Some c) ->
+  forall (new : pmap) (chunks : list str) (k : nat) (s : fs),
+  sorted new -> map_ok new -> concat chunks = save_bytes new -> f_conf s = None ->
+  exists s', fs_run step (firstn k (script_of_chunks chunks)) s = Some s' /\
+    ((f_conf s' = None /\ restart s' = []) \/
+     ((length chunks + 3 <= k)%nat /\ f_conf s' = Some (save_bytes new) /\ restart s' = new)).
+Proof. exact first_save_crash. Qed.
+Print Assumptions c18_first_save_crash.
